@@ -220,6 +220,7 @@ def check(prop, tier, seed, replay=None):
             oc.known = {"open": [], "fixed": []}   # a replay reports what it sees
             nchunks = 1
         else:
+            V.version_include()   # once, before the parallel builds (its temp-file name is per process, not per thread)
             exes = V.build_many([harness_job(g) for g in cfg["gs"]])
             for pos, (g, exe) in enumerate(zip(cfg["gs"], exes)):
                 out = os.path.join(workdir, f"g{g}.ndjson")
